@@ -114,9 +114,17 @@ func (a *AST) indexChars(n Node) {
 func (a *AST) computeFollows(n Node) {
 	switch v := n.(type) {
 	case *Concat:
+		// The positions that can follow the last positions of an operand are the first positions of the next operand
+		// and, as long as the operands in between are nullable, of the operands after it.
 		for i := 0; i < len(v.Exprs)-1; i++ {
-			for _, p := range v.Exprs[i].lastPos() {
-				a.follows[p] = append(a.follows[p], v.Exprs[i+1].firstPos()...)
+			for j := i + 1; j < len(v.Exprs); j++ {
+				for _, p := range v.Exprs[i].lastPos() {
+					a.follows[p] = append(a.follows[p], v.Exprs[j].firstPos()...)
+				}
+
+				if !v.Exprs[j].nullable() {
+					break
+				}
 			}
 		}
 
